@@ -5,6 +5,7 @@ package main
 
 import (
 	"fmt"
+	"net"
 	"sort"
 	"strconv"
 	"strings"
@@ -12,6 +13,7 @@ import (
 	"bfeverif/harness/internal/vh"
 	"github.com/bfenetworks/bfe/bfe_balance"
 	"github.com/bfenetworks/bfe/bfe_balance/backend"
+	"github.com/bfenetworks/bfe/bfe_balance/bal_slb"
 	"github.com/bfenetworks/bfe/bfe_basic"
 	"github.com/bfenetworks/bfe/bfe_config/bfe_cluster_conf/cluster_table_conf"
 	"github.com/bfenetworks/bfe/bfe_config/bfe_cluster_conf/gslb_conf"
@@ -263,6 +265,25 @@ func mutate(r *vh.Rand, g []clG, t []clT, first bool) ([]clG, []clT) {
 			}
 			subs = append(subs, subG{n, r.Range(0, 3)})
 		}
+		if r.Chance(1, 5) {
+			// drain everything except ONE sub-cluster, often a freshly added one whose name sorts before or after the rest
+			if len(subs) < 4 && r.Chance(2, 3) {
+				for _, n := range []string{r.Pick("s0", "s9"), "s0", "s9", "s5"} {
+					if !hasSubG(clG{subs: subs}, n) {
+						subs = append(subs, subG{n, 0})
+						break
+					}
+				}
+			}
+			k := len(subs) - 1
+			if r.Chance(1, 3) {
+				k = r.Intn(len(subs))
+			}
+			for j := range subs {
+				subs[j].weight = 0
+			}
+			subs[k].weight = []int{1, 3, 100}[r.Intn(3)]
+		}
 		total := 0
 		for _, s := range subs {
 			if s.weight > 0 {
@@ -443,25 +464,75 @@ func (w *world) listing() (string, string) {
 	return dash(strings.Join(cs, "|")), dash(strings.Join(gr, ";"))
 }
 
-func (w *world) probes() string {
-	cl := w.t.VerifC09Clusters()
+// probeKeys returns client addresses whose hash residues modulo total cover 0..total-1, so that every sub-cluster
+// with a positive weight is reached by the sub-cluster level hash whatever the order of the list is.
+var keyCache = map[int][]net.IP{}
+
+func probeKeys(total int) []net.IP {
+	if total <= 0 {
+		return []net.IP{net.IPv4(10, 0, 0, 1).To4(), net.IPv4(10, 0, 0, 2).To4()}
+	}
+	if k, ok := keyCache[total]; ok {
+		return k
+	}
+	seen := map[int]bool{}
+	var keys []net.IP
+	for i := 0; i < 1<<16 && len(seen) < total; i++ {
+		ip := net.IPv4(10, 1, byte(i>>8), byte(i)).To4()
+		r := bal_slb.GetHash(ip, uint(total))
+		if !seen[r] {
+			seen[r] = true
+			keys = append(keys, ip)
+		}
+	}
+	keyCache[total] = keys
+	return keys
+}
+
+const probesPerKey = 20 // >= one full smooth-WRR cycle of a sub-cluster (<= 6 backends of weight <= 3)
+
+// probes enumerates what Balance can return: for every cluster, for client addresses covering every residue of the
+// sub-cluster hash, one full round-robin cycle.  Result: sorted set of cluster,sub,addr,port,closed.
+func probes(t *bfe_balance.BalTable) string {
+	cl := t.VerifC09Clusters()
 	set := map[string]bool{}
 	for n, bal := range cl {
-		for i := 0; i < 12; i++ {
+		total := 0
+		for _, s := range bal.VerifC09Subs() {
+			if s.Weight > 0 {
+				total += s.Weight
+			}
+		}
+		hit := map[*backend.BfeBackend]bool{}
+		one := func(ip net.IP) (string, string) {
+			sub := ""
 			e := vh.Safe(func() string {
-				req := &bfe_basic.Request{}
+				req := &bfe_basic.Request{ClientAddr: &net.TCPAddr{IP: ip, Port: 12345}}
 				b, err := bal.Balance(req)
 				if err != nil || b == nil {
 					return ""
 				}
-				return fmt.Sprintf("%s,%s,%s,%d,%s", n, b.SubCluster, b.Addr, b.Port, b01(closed(b)))
+				sub = b.SubCluster
+				hit[b] = true
+				return ""
 			})
 			if strings.HasPrefix(e, "PANIC:") {
-				e = "PANIC," + n + ",,,1"
+				set["PANIC,"+n+",,,1"] = true
 			}
-			if e != "" {
-				set[e] = true
+			return e, sub
+		}
+		cycled := map[string]bool{}
+		for _, ip := range probeKeys(total) {
+			// every residue is tried once; the first time a sub-cluster answers, a full round-robin cycle is run on it
+			if _, sub := one(ip); sub != "" && !cycled[sub] {
+				cycled[sub] = true
+				for i := 1; i < probesPerKey; i++ {
+					one(ip)
+				}
 			}
+		}
+		for b := range hit {
+			set[fmt.Sprintf("%s,%s,%s,%d,%s", n, b.SubCluster, b.Addr, b.Port, b01(closed(b)))] = true
 		}
 	}
 	var l []string
@@ -470,6 +541,50 @@ func (w *world) probes() string {
 	}
 	sort.Strings(l)
 	return dash(strings.Join(l, ";"))
+}
+
+// freshProbes loads the same configuration into a NEW BalTable, copies the availability of the real backends
+// (a fresh backend is down iff every real backend with the same cluster / sub-cluster / Addr:Port is down) and
+// enumerates what Balance returns there: after a reload, selection must not differ from a fresh load.
+func (w *world) freshProbes(kind string, g gslb_conf.GslbConf, t cluster_table_conf.ClusterTableConf) string {
+	return vh.Safe(func() string {
+		f := bfe_balance.NewBalTable(nil)
+		if kind == "I" {
+			f.VerifC09Init(g, t) // Init keeps duplicate Addr:Port entries, a reload merges them
+		} else {
+			f.BalTableReload(g, t)
+		}
+		real := w.t.VerifC09Clusters()
+		for cn, fb := range f.VerifC09Clusters() {
+			rb, ok := real[cn]
+			if !ok {
+				continue
+			}
+			rsubs := map[string][]*backend.BfeBackend{}
+			for _, s := range rb.VerifC09Subs() {
+				for _, b := range s.Backends.VerifC09Backends() {
+					rsubs[s.Name] = append(rsubs[s.Name], b.Backend)
+				}
+			}
+			for _, s := range fb.VerifC09Subs() {
+				for _, b := range s.Backends.VerifC09Backends() {
+					n, down := 0, 0
+					for _, r := range rsubs[s.Name] {
+						if configuredKey(r) == configuredKey(b.Backend) {
+							n++
+							if !r.Avail() {
+								down++
+							}
+						}
+					}
+					if n > 0 && down == n {
+						b.Backend.SetAvail(false)
+					}
+				}
+			}
+		}
+		return probes(f)
+	})
 }
 
 func (w *world) apply(e event) {
@@ -561,7 +676,7 @@ func exec(op string) string {
 			break
 		}
 		tbl, gr := w.listing()
-		out = append(out, status+"#"+tbl+"#"+gr+"#"+w.probes())
+		out = append(out, status+"#"+tbl+"#"+gr+"#"+probes(w.t)+"#"+w.freshProbes(st.kind, g, t))
 		for _, e := range st.ev {
 			w.apply(e)
 		}
